@@ -39,6 +39,20 @@ CHECKS.update({
    text="TLC explores every interleaving at atomic-operation granularity for 2-3 threads and capacities 1-4 checking AtMostOnce, OnlyInserted, FailedInsertKeeps and Drain; each transition of the 2-thread graphs (and seeded 3-thread behaviours) is executed on the real shared cache with the state compared after every step; seeded random real schedules are validated against the specification; all insert/get strings up to length 10 on both cache variants are compared with the bounded LIFO model.",
    note="Sequentially consistent interleavings at yield-point granularity; weak-memory effects are out of scope of the specification."),
 })
+CHECKS.update({
+ "C11": dict(cat="model_checking", sec="5/C11", tech="TLA+ Filters (per-pair classification pass/ramp/cut with rational factors, exact interval averages in Q(zeta8)); TLC checks partition/monotonicity/finiteness laws and exports every call; replay slot by slot on the real tables",
+   text="TLC explores spectra (distinct, partially and fully degenerate) x times x thresholds (off rounding boundaries) x ramps x intervals for every dimension, classifies every level pair exactly and computes dyadic ramp factors and exact interval means; the real PrepareEvolve/LowPassFilter/AvgRampFilter tables are compared slot by slot (cut: exactly 0 and flagged; pass: bit-identical; ramp: factor; reject: exception and untouched buffer; every entry finite), Evolve(buffer) against the exact averaged matrix, and the averaged expectation-value overloads against the tables.",
+   note="Complete for d<=4 (quick) / d<=5 (thorough), seeded for larger d; ramp tolerance is eps-scaled."),
+ "C14": dict(cat="model_checking", sec="5/C14", tech="TLA+ SUVec guard exploration (SpecGuard): one unsupported/mismatched call from every prepared pool; verdicts exported by TLC; executed under ASan+UBSan for all ordered dimension pairs; traces validated by TLC",
+   text="TLC enumerates the whole argument window (dimension 1,7,8 for every constructor/factory incl. make_aligned; list lengths 1, non-squares <=64, 49, 64; factory indices up to d*d+2; every binary entry point incl. Evolve(op,t), Rotate(matrix), scalar product, compound and plain assignment to user storage on mismatched operands) and requires a library exception with nothing modified; each case runs on the real library for all 20 ordered dimension pairs with sanitizers watching every access.",
+   note="'No memory outside the operands is accessed' is observed by ASan/UBSan on the executed cases, not proved."),
+ "C15": dict(cat="model_checking", sec="5/C15", tech="TLA+ SUVec heap model (HeapSound, NoLeak) model checked; path cover + seeded histories with throwing calls executed under ASan+UBSan; new[]/delete[] ledger and cache events validated by TLC",
+   text="The specification's heap (blocks free/owned/cached, per-class caches) is checked exhaustively for soundness and absence of leaks at quiescence; the real library, built with AddressSanitizer and UBSan (alignment incl. assume_aligned, bounds, unreachable, null), executes every explored (state, call) pair and random histories mixing in calls that throw; each call's allocation/release/cache events must be those the specification allows, and at quiescence the ledger must be empty.",
+   note="Vector pool only in this check; solver objects are covered by the C10 driver. Sanitizers observe the executed histories."),
+ "C16": dict(cat="fault_enumeration", sec="5/C16", tech="TLA+ SUVec with fault twins (Faults=TRUE) model checked for FailureFrame/HeapSound; every (state, allocating call, failing allocation) replayed with operator new[] armed to throw, ASan build; traces validated by TLC",
+   text="Every allocating call of the catalogue has a twin in which its allocation fails; TLC checks on all bounded histories that no vector but the target changes, the target is left unchanged or empty and the heap stays sound; each such case is executed on the real library with the k-th new[] of the call throwing, then every vector is destroyed, the cache drained and the ledger required empty.",
+   note="Each catalogue operation performs at most one block allocation, so k=1 is the complete enumeration; only block allocations (operator new[]) are failed."),
+})
 NA = {}
 def main():
     checks = []
